@@ -155,9 +155,39 @@ def build(d, g, shared=None):
         for key, attr in (("under", "underflow"), ("over", "overflow"), ("nan", "nanflow")):
             if key in d and d[key].get("inst"):
                 setattr(out, attr, B(d[key]))
+    if shared is not None and d.get("xid"):
+        # one of this container's own children is also installed somewhere else in the tree (descriptor nodes with
+        # share id xid): optionally rebuild the container first through copy() / zero() / + (explicit-pairs forms)
+        via = d.get("xvia", "")
+        if via == "copy":
+            out = out.copy()
+        elif via == "zero":
+            out = out.zero()
+        elif via == "add":
+            out = out + out.zero()
+        shared[d["xid"]] = _child_at(out, d["xpos"])
     if shared is not None and d.get("share"):
         shared[d["share"]] = out
     return out
+
+
+def _child_at(h, pos):
+    k = h.name
+    if pos in ("nan", "under", "over"):
+        return getattr(h, {"nan": "nanflow", "under": "underflow", "over": "overflow"}[pos])
+    if pos in ("first", "last"):
+        i = 0 if pos == "first" else -1
+        if k == "Bin":
+            return h.values[i]
+        if k in ("CentrallyBin", "IrregularlyBin", "Stack"):
+            return h.bins[i][1]
+        if k in ("Index", "Branch"):
+            return h.values[i]
+    if k == "Fraction":
+        return h.numerator if pos == "num" else h.denominator
+    if k == "Select":
+        return h.cut
+    raise ValueError((k, pos))
 
 
 def conv_name(d):
